@@ -536,7 +536,9 @@ def parseRecover (H : HashFam) (cfg : Protocol) (orc : Oracles) (req : Json) (ba
   guard' (batch ||
     (orc.anchorOriginOK sd.anchorOrigin &&
      orc.anchorTimeOK sd.anchorFrom (anchorUntil cfg sd.anchorFrom sd.anchorUntil) && validateDelta cfg orc c.delta &&
-     (c.delta.getD default).updateCommitment != sd.recoveryCommitment))
+     (c.delta.getD default).updateCommitment != sd.recoveryCommitment &&
+     -- the signing key must not come back as the next update key either (D33)
+     keyFresh H sd.key (c.delta.getD default).updateCommitment))
   guard' (revealMatches H sd.key c.revealValue)
   pure { type := .recover, uniqueSuffix := c.didSuffix, delta := c.delta, signedData := c.signedData,
          revealValue := c.revealValue, anchorOrigin := sd.anchorOrigin }
